@@ -10,12 +10,17 @@ Section E.
   Variable U : utables.
   Variable table : pat -> re * list (str * nat).     (* pattern AST and group names -> slots *)
 
-  (* regex.search(pattern, window); PYearMatch is used with regex.match (anchored at 0) *)
+  (* regex.fullmatch at position 0: the whole window must be consumed (backtracking included) *)
+  Definition fullmatch_at (w : str) (r : re) : option mresult :=
+    m U false w r 0%nat [] (fun j c => if Nat.eqb j (length w) then Some (j, c) else None).
+
+  (* regex.search(pattern, window); PYearMatch is used with regex.fullmatch (as repaired, D22: a parenthetical
+     is dropped only when it IS a year, not when it merely starts with one) *)
   Definition engine_search (p : pat) (w : str) : option mres :=
     let (r, names) := table p in
     match p with
     | PYearMatch =>
-        match match_at U false w r 0%nat with
+        match fullmatch_at w r with
         | Some (j, c) => Some (to_mres names (0%nat, j, c))
         | None => None
         end
